@@ -455,6 +455,46 @@ def strip_chars(nfa: NFA, mask: int) -> NFA:
     return out
 
 
+def lstrip_chars(nfa: NFA, mask: int) -> NFA:
+    """Exact `.lstrip(chars)`: { w : u.w in L, u made of `mask` characters, w empty or not starting with one }."""
+    out = NFA()
+    n = len(nfa.trans)
+    # states 0..n-1: the original automaton (phase B: output); n..2n-1: phase A (still stripping, nothing output yet)
+    out.trans = [list(r) for r in nfa.trans] + [[] for _ in range(n)]
+    out.approx = nfa.approx
+    for s, row in enumerate(nfa.trans):
+        for m, t in row:
+            if m == 0:
+                out.trans[n + s].append((0, n + t))
+            else:
+                if m & mask:
+                    out.trans[n + s].append((0, n + t))  # stripped, not output
+                keep = m & ~mask
+                if keep:
+                    out.trans[n + s].append((keep, t))  # first character that stays
+    out.start = n + nfa.start
+    out.accept = set(nfa.accept) | {n + a for a in nfa.accept}
+    return out
+
+
+def reverse_nfa(nfa: NFA) -> NFA:
+    out = NFA()
+    out.trans = [[] for _ in nfa.trans]
+    out.approx = nfa.approx
+    for s, row in enumerate(nfa.trans):
+        for m, t in row:
+            out.trans[t].append((m, s))
+    out.start = out.new()
+    for a in nfa.accept:
+        out.eps(out.start, a)
+    out.accept = {nfa.start}
+    return out
+
+
+def rstrip_chars(nfa: NFA, mask: int) -> NFA:
+    return reverse_nfa(lstrip_chars(reverse_nfa(nfa), mask))
+
+
 def confirm(pattern: str, text: str, flags: int = 0) -> bool:
     """Ask Python's regex engine whether `text` is matched completely by `pattern`."""
     try:
